@@ -41,7 +41,8 @@ def scenario(draw, tier="quick"):
         sc = draw(gen.script(spec, states, place_kw=dict(kinds=("LIMIT", "LIMIT", "LIMIT", "LOC", "MOC"), sp=True,
                                                             sizes="level"), max_entries=6))
         strategies.append(gen.strategy_spec(name, script=sc))
-    client = {"bpe": draw(st.integers(0, 3)) > 0, "full_match": draw(st.integers(0, 5)) == 0}
+    client = {"bpe": draw(st.integers(0, 3)) > 0, "full_match": draw(st.integers(0, 5)) == 0,
+              "min_bet_validation": draw(st.integers(0, 3)) == 0}
     cfg = {}
     if draw(st.integers(0, 3)) == 0:
         cfg["simulated_strategy_isolation"] = False
